@@ -158,9 +158,168 @@ theorem inBody_iff_next : ∀ (cs : List RTree) (p lo hi : Nat), chain lo hi cs 
         exact this ts t.stop h.2 hlt
       cases t with
       | node k s e cs =>
-        simp only [hp, hrest, Bool.and_true, Bool.or_false, if_true, pathTree, RTree.kind]
+        rw [hrest]
+        simp only [Bool.and_true, Bool.or_false, if_true, pathTree, RTree.kind]
+        first | rfl | congr
     | false =>
       simp only [Bool.and_false, Bool.false_or, Bool.false_eq_true, if_false]
       exact inBody_iff_next ts p t.stop hi h.2
+
+/-! ### The analyzer's scope tree is well nested -/
+
+mutual
+theorem sizeExpr_pos' : ∀ e : Expr, 1 ≤ sizeExpr e
+  | .name _ => by simp [sizeExpr]
+  | .lit => by simp [sizeExpr]
+  | .call _ _ => by simp only [sizeExpr]; omega
+  | .func _ _ => by simp only [sizeExpr]; omega
+end
+
+theorem sizeStat_pos' : ∀ st : Stat, 1 ≤ sizeStat st := by
+  intro st; cases st <;> simp only [sizeStat] <;> omega
+
+theorem chain_single (lo hi : Nat) (k : Kind) (s e : Nat) (cs : List RTree) (h1 : lo ≤ s) (h2 : s ≤ e) (h3 : e ≤ hi)
+    (hc : chain s e cs = true) : chain lo hi [.node k s e cs] = true := by
+  simp [chain, wellNested, RTree.start, RTree.stop, h1, h2, h3, hc]
+
+mutual
+theorem chainExpr : ∀ (e : Expr) (pos lo hi : Nat), lo ≤ pos → pos + 2 * sizeExpr e ≤ hi + 1 →
+    chain lo hi (scopesExpr pos e) = true
+  | .name _, pos, lo, hi, h1, h2 => by simp only [scopesExpr, chain, sizeExpr] at *; simp; omega
+  | .lit, pos, lo, hi, h1, h2 => by simp only [scopesExpr, chain, sizeExpr] at *; simp; omega
+  | .call _ args, pos, lo, hi, h1, h2 => by
+    simp only [scopesExpr, sizeExpr] at *
+    exact chainExprs args (pos + 4) lo hi (by omega) (by omega) (by omega)
+  | .func ps body, pos, lo, hi, h1, h2 => by
+    simp only [scopesExpr, sizeExpr] at *
+    exact chain_single lo hi _ _ _ _ h1 (by omega) (by omega)
+      (chainBlock body (pos + 2 * (3 + ps.length)) pos _ (by omega) (by omega))
+theorem chainExprs : ∀ (es : List Expr) (pos lo hi : Nat), lo ≤ pos → pos + 2 * sizeExprs es ≤ hi + 1 → lo ≤ hi →
+    chain lo hi (scopesExprs pos es) = true
+  | [], pos, lo, hi, h1, h2, h3 => by simp [scopesExprs, chain, h3]
+  | e :: es, pos, lo, hi, h1, h2, h3 => by
+    simp only [scopesExprs, sizeExprs] at *
+    have := sizeExpr_pos' e
+    exact chain_append _ _ lo (pos + 2 * sizeExpr e - 1) hi
+      (chainExpr e pos lo _ h1 (by omega))
+      (chainExprs es (pos + 2 * sizeExpr e) _ hi (by omega) (by omega) (by omega))
+theorem chainStat : ∀ (st : Stat) (pos lo hi : Nat), lo ≤ pos → pos + 2 * sizeStat st ≤ hi + 1 →
+    chain lo hi (scopesStat pos st) = true
+  | .locl names vals, pos, lo, hi, h1, h2 => by
+    simp only [scopesStat]
+    refine chain_single lo hi _ _ _ _ h1 ?_ (by omega) ?_
+    · simp only [sizeStat]; omega
+    · exact chainExprs vals _ pos _ (by omega) (by simp only [sizeStat]; omega) (by simp only [sizeStat]; omega)
+  | .assign vars vals, pos, lo, hi, h1, h2 => by
+    simp only [scopesStat]
+    refine chain_single lo hi _ _ _ _ h1 ?_ (by omega) ?_
+    · simp only [sizeStat]; omega
+    · exact chainExprs vals _ pos _ (by omega) (by simp only [sizeStat]; omega) (by simp only [sizeStat]; omega)
+  | .localFunc n ps body, pos, lo, hi, h1, h2 => by
+    simp only [scopesStat]
+    refine chain_single lo hi _ _ _ _ h1 ?_ (by omega) ?_
+    · simp only [sizeStat]; omega
+    · refine chain_single _ _ _ _ _ _ (by omega) ?_ (Nat.le_refl _) ?_
+      · simp only [sizeStat]; omega
+      · exact chainBlock body _ _ _ (by omega) (by simp only [sizeStat]; omega)
+  | .funcStat n ps body, pos, lo, hi, h1, h2 => by
+    simp only [scopesStat]
+    refine chain_single lo hi _ _ _ _ h1 ?_ (by omega) ?_
+    · simp only [sizeStat]; omega
+    · refine chain_single _ _ _ _ _ _ (by omega) ?_ (Nat.le_refl _) ?_
+      · simp only [sizeStat]; omega
+      · exact chainBlock body _ _ _ (by omega) (by simp only [sizeStat]; omega)
+  | .forNum v e1 e2 body, pos, lo, hi, h1, h2 => by
+    simp only [scopesStat]
+    have s1 := sizeExpr_pos' e1
+    have s2 := sizeExpr_pos' e2
+    refine chain_single lo hi _ _ _ _ h1 ?_ (by omega) ?_
+    · simp only [sizeStat]; omega
+    · refine chain_append _ _ pos (pos + 6 + 2 * sizeExpr e1 + 2 * sizeExpr e2 - 1) _
+        (chain_append _ _ pos (pos + 6 + 2 * sizeExpr e1 - 1) _
+          (chainExpr e1 (pos + 6) pos _ (by omega) (by omega))
+          (chainExpr e2 (pos + 6 + 2 * sizeExpr e1) _ _ (by omega) (by omega)))
+        (chainBlock body _ _ _ (by omega) (by simp only [sizeStat]; omega))
+  | .forIn vs e body, pos, lo, hi, h1, h2 => by
+    simp only [scopesStat]
+    have s1 := sizeExpr_pos' e
+    refine chain_single lo hi _ _ _ _ h1 ?_ (by omega) ?_
+    · simp only [sizeStat]; omega
+    · refine chain_append _ _ pos (pos + 2 * (2 + vs.length) + 2 * sizeExpr e - 1) _
+        (chainExpr e _ pos _ (by omega) (by omega))
+        (chainBlock body _ _ _ (by omega) (by simp only [sizeStat]; omega))
+  | .while_ c body, pos, lo, hi, h1, h2 => by
+    simp only [scopesStat, sizeStat] at *
+    have s1 := sizeExpr_pos' c
+    exact chain_append _ _ lo (pos + 2 + 2 * sizeExpr c - 1) hi
+      (chainExpr c (pos + 2) lo _ (by omega) (by omega))
+      (chainBlock body _ _ _ (by omega) (by omega))
+  | .repeat_ body c, pos, lo, hi, h1, h2 => by
+    simp only [scopesStat]
+    have s1 := sizeExpr_pos' c
+    refine chain_single lo hi _ _ _ _ h1 ?_ (by omega) ?_
+    · simp only [sizeStat]; omega
+    · refine chain_append _ _ pos (pos + 2 + 2 * sizeBlock body) _
+        (chainBlock body (pos + 2) pos _ (by omega) (by omega))
+        (chainExpr c _ _ _ (by omega) (by simp only [sizeStat]; omega))
+  | .do_ body, pos, lo, hi, h1, h2 => by
+    simp only [scopesStat, sizeStat] at *
+    exact chainBlock body (pos + 2) lo hi (by omega) (by omega)
+  | .if_ c t e, pos, lo, hi, h1, h2 => by
+    simp only [scopesStat, sizeStat] at *
+    have s1 := sizeExpr_pos' c
+    exact chain_append _ _ lo (pos + 4 + 2 * sizeExpr c + 2 * sizeBlock t) hi
+      (chain_append _ _ lo (pos + 2 + 2 * sizeExpr c - 1) _
+        (chainExpr c (pos + 2) lo _ (by omega) (by omega))
+        (chainBlock t _ _ _ (by omega) (by omega)))
+      (chainBlock e _ _ _ (by omega) (by omega))
+  | .callS _ args, pos, lo, hi, h1, h2 => by
+    simp only [scopesStat, sizeStat] at *
+    exact chainExprs args (pos + 4) lo hi (by omega) (by omega) (by omega)
+  | .loclAttr n val, pos, lo, hi, h1, h2 => by
+    simp only [scopesStat]
+    have s1 := sizeExpr_pos' val
+    refine chain_single lo hi _ _ _ _ h1 ?_ (by omega) ?_
+    · simp only [sizeStat]; omega
+    · exact chainExpr val _ pos _ (by omega) (by simp only [sizeStat]; omega)
+  | .method obj k colon ps body, pos, lo, hi, h1, h2 => by
+    simp only [scopesStat]
+    refine chain_single lo hi _ _ _ _ h1 ?_ (by omega) ?_
+    · simp only [sizeStat]; omega
+    · refine chain_single _ _ _ _ _ _ (by omega) ?_ (Nat.le_refl _) ?_
+      · simp only [sizeStat]; omega
+      · exact chainBlock body _ _ _ (by omega) (by simp only [sizeStat]; omega)
+theorem chainStats : ∀ (sts : List Stat) (pos lo hi : Nat), lo ≤ pos → pos + 2 * sizeBlock sts ≤ hi + 1 → lo ≤ hi →
+    chain lo hi (scopesStats pos sts) = true
+  | [], pos, lo, hi, h1, h2, h3 => by simp [scopesStats, chain, h3]
+  | st :: rest, pos, lo, hi, h1, h2, h3 => by
+    simp only [scopesStats, sizeBlock] at *
+    have := sizeStat_pos' st
+    exact chain_append _ _ lo (pos + 2 * sizeStat st - 1) hi
+      (chainStat st pos lo _ h1 (by omega))
+      (chainStats rest (pos + 2 * sizeStat st) _ hi (by omega) (by omega) (by omega))
+theorem chainBlock : ∀ (b : List Stat) (pos lo hi : Nat), lo + 1 ≤ pos → pos + 2 * sizeBlock b ≤ hi →
+    chain lo hi (scopesBlock pos b) = true
+  | [], pos, lo, hi, h1, h2 => by simp only [scopesBlock, chain, sizeBlock] at *; simp; omega
+  | st :: rest, pos, lo, hi, h1, h2 => by
+    simp only [scopesBlock]
+    have := sizeStat_pos' st
+    refine chain_single lo hi _ _ _ _ (by omega) (by omega) h2 ?_
+    simp only [sizeBlock] at *
+    exact chain_append _ _ (pos - 1) (pos + 2 * sizeStat st - 1) _
+      (chainStat st pos _ _ (by omega) (by omega))
+      (chainStats rest (pos + 2 * sizeStat st) _ _ (by omega) (by omega) (by omega))
+end
+
+/-- the scope tree the analyzer builds for a chunk is well nested -/
+theorem chunkTree_wellNested (p : List Stat) : wellNested (chunkTree p) = true := by
+  simp only [chunkTree, wellNested, Bool.and_eq_true, decide_eq_true_eq]
+  exact ⟨by omega, chainBlock p startPos 0 _ (by decide) (by omega)⟩
+
+/-- **`find_scope` on the analyzer's scope tree** returns the path of all scopes whose range contains
+the position — it ends in the innermost scope containing it. -/
+theorem find_scope_innermost (p : List Stat) (q : Nat) (hq : q < startPos + 2 * sizeBlock p + 1) :
+    pathTree (chunkTree p) q = containingTree (chunkTree p) q :=
+  path_eq_containing _ q (chunkTree_wellNested p) (by simp [chunkTree, RTree.has, RTree.start, RTree.stop, hq])
 
 end Scope
